@@ -4,7 +4,7 @@ Helper lemmas for the front-end properties C17 (`ruschm FILE`), C18 (REPL), C19 
 import RuschmSpec.Front
 import RuschmProofs.LibLemmas
 import RuschmProofs.StoreLemmas
--- import RuschmProofs.EvalLemmas
+import RuschmProofs.EvalLemmas
 import RuschmProofs.TextLemmas
 
 namespace Ruschm.FrontSpec
@@ -657,5 +657,316 @@ theorem evalText_rparen (fuel : Nat) (st : State) :
   unfold evalText
   simp only [Read.ofText, lex_rparen]
   simp [evalText.go, Read.nextDatum, Read.advance, Read.currentDatum, Read.fuelFor, bind, Except.bind]
+
+/-! ## C19: `define-syntax` writes to the instance's own scope only -/
+
+section synbase
+open Ruschm.Xform
+
+/-- both runs are the same run, and the environment is `d + 1` scopes above the fixed `base` -/
+def OverBase (base : SynEnv) (d : Nat) (s₁ s₂ : SynEnv) : Prop :=
+  s₁ = s₂ ∧ ∃ pre : SynEnv, pre.length = d + 1 ∧ s₁ = pre ++ base
+
+instance (base : SynEnv) : EnvRel (OverBase base) where
+  get? := fun h k => by rw [h.1]
+  define := fun {d s₁ s₂} h k r => by
+    obtain ⟨rfl, pre, hl, rfl⟩ := h
+    refine ⟨rfl, ?_⟩
+    cases pre with
+    | nil => simp at hl
+    | cons c pre => exact ⟨scopeInsert c k r :: pre, by simpa using hl, by simp [SynEnv.define]⟩
+  push := fun {d s₁ s₂} h => by
+    obtain ⟨rfl, pre, hl, rfl⟩ := h
+    exact ⟨rfl, [] :: pre, by simp [hl], by simp⟩
+  pop := fun {d o₁ o₂} h => by
+    obtain ⟨rfl, pre, hl, rfl⟩ := h
+    refine ⟨rfl, ?_⟩
+    cases pre with
+    | nil => simp at hl
+    | cons c pre => exact ⟨pre, by simpa using hl, by simp [popScope]⟩
+
+/-- the transformer writes to the innermost scope only: below it the environment is unchanged -/
+theorem toStatement_base (n : Nat) (d : Datum) (own : List (String × Macro.Rules)) (base : SynEnv) :
+    ∃ own', (toStatement n d (own :: base)).2 = own' :: base := by
+  obtain ⟨_, _, pre, hl, h⟩ := ((relAll (R := OverBase base) n).stmt d).rel 0 (own :: base) (own :: base)
+    ⟨rfl, [own], rfl, rfl⟩
+  match pre, hl, h with
+  | [own'], _, h => exact ⟨own', h⟩
+
+theorem evalForm_syn (fuel : Nat) (st : State) (d : Datum) (own : List (String × Macro.Rules)) (base : SynEnv)
+    (h : st.syn = own :: base) : ∃ own', (evalForm fuel st d).2.syn = own' :: base := by
+  obtain ⟨own', h'⟩ := toStatement_base (xformFuel d) d own base
+  unfold evalForm
+  rw [h]
+  generalize toStatement (xformFuel d) d (own :: base) = x at h'
+  obtain ⟨r, syn⟩ := x
+  simp only at h'
+  subst h'
+  cases r with
+  | error e => exact ⟨own', rfl⟩
+  | ok stmt =>
+    obtain ⟨_, b, _⟩ := evalAst_out (fuel := fuel) (st := { st with syn := own' :: base }) (s := stmt) rfl
+    exact ⟨own', b⟩
+
+theorem runForms_syn (fuel : Nat) (ds : List Datum) : ∀ (st : State) (last : Option Value)
+    (own : List (String × Macro.Rules)) (base : SynEnv), st.syn = own :: base →
+    ∃ own', (runForms fuel st ds last).2.syn = own' :: base := by
+  induction ds with
+  | nil => intro st last own base h; exact ⟨own, h⟩
+  | cons d ds ih =>
+    intro st last own base h
+    rw [runForms]
+    obtain ⟨own', h'⟩ := evalForm_syn fuel st d own base h
+    generalize evalForm fuel st d = y at h'
+    obtain ⟨r, st'⟩ := y
+    cases r with
+    | error e => exact ⟨own', h'⟩
+    | ok v => exact ih st' v own' base h'
+
+theorem evalText_syn (fuel : Nat) (st : State) (text : List Char) (own : List (String × Macro.Rules))
+    (base : SynEnv) (h : st.syn = own :: base) : ∃ own', (evalText fuel st text).2.syn = own' :: base := by
+  rw [evalText_eq_runText]
+  unfold runText
+  obtain ⟨own', h'⟩ := runForms_syn fuel (formsOf text).1 st none own base h
+  generalize runForms fuel st (formsOf text).1 none = y at h'
+  obtain ⟨r, st'⟩ := y
+  cases r with
+  | error e => exact ⟨own', h'⟩
+  | ok v => cases (formsOf text).2 <;> exact ⟨own', h'⟩
+
+theorem default_syn (b : Bool) : (default_ b).syn = [[], grammarScope] := rfl
+
+theorem withStdlib_syn (fuel : Nat) (b : Bool) : (withStdlib fuel b).syn = [[], grammarScope] := by
+  unfold withStdlib
+  have := ((invAt (R := fun _ _ => True) storeRel_true fuel).import_
+    (st := default_ b) (sets := [.direct libSchemeBase none, .direct libSchemeWrite none]) (ρ := (default_ b).env) rfl).syn
+  exact this
+
+
+theorem runAlone_syn (fuel : Nat) (texts : List (List Char)) : ∀ (st : State)
+    (own : List (String × Macro.Rules)) (base : SynEnv), st.syn = own :: base →
+    ∃ own', (runAlone fuel st texts).2.syn = own' :: base := by
+  induction texts with
+  | nil => intro st own base h; exact ⟨own, h⟩
+  | cons t ts ih =>
+    intro st own base h
+    obtain ⟨own', h'⟩ := evalText_syn fuel st t own base h
+    exact ih _ own' base h'
+end synbase
+
+/-! ## C17: layouts that move the cursor alike give the same located tokens -/
+
+section layout
+open Ruschm.Lex Ruschm.Text
+
+theorem allAux_render_located (ts : List Token) (layout : List (List Char))
+    (hs : ∀ t ∈ ts, SupportedTok t) (hl : ValidLayout ts layout) (fuel : Nat) (p : Pos)
+    (acc : List LToken) (hf : (interleave ts layout).length < fuel) :
+    allAux fuel (interleave ts layout) p acc = (acc.reverse ++ locate ts layout p, none) := by
+  induction ts generalizing layout fuel p acc with
+  | nil =>
+    cases fuel with
+    | zero => omega
+    | succ fuel =>
+      match layout, hl with
+      | [a], hl =>
+        simp only [ValidLayout] at hl
+        obtain ⟨p', hp⟩ := skipAtmosphere_trail false a p hl
+        simp [interleave, allAux, next, hp, token, locate]
+  | cons t ts ih =>
+    cases fuel with
+    | zero => omega
+    | succ fuel =>
+      match layout, hl with
+      | a :: l, hl =>
+        simp only [ValidLayout] at hl
+        obtain ⟨ha, hfo, hl'⟩ := hl
+        have hst := hs t (by simp)
+        simp only [interleave, List.headD_cons, List.tail_cons] at hf ⊢
+        have hnext : next (a ++ (renderTok t ++ interleave ts l)) p
+            = .ok (some (t, interleave ts l, advs (renderTok t) (advs a p))) := by
+          unfold next
+          rw [skipAtmosphere_atmos false a _ p ha (renderTok_startsTok t hst _)]
+          exact token_render t _ _ hst hfo
+        have hlen := renderTok_length_pos t hst
+        simp only [List.length_append] at hf
+        have g1 := ih l (fun t ht => hs t (by simp [ht])) hl' fuel
+          (advs (renderTok t) (advs a p))
+          (⟨t, some (advs (renderTok t) (advs a p))⟩ :: acc) (by omega)
+        simp [allAux, hnext, g1, locate]
+
+theorem all_render_located (ts : List Token) (layout : List (List Char))
+    (hs : ∀ t ∈ ts, SupportedTok t) (hl : ValidLayout ts layout) :
+    Lex.all (interleave ts layout) = (locate ts layout (1, 1), none) := by
+  unfold Lex.all
+  rw [allAux_render_located ts layout hs hl _ (1, 1) [] (Nat.lt_succ_self _)]
+  simp
+
+theorem locate_sameCursor (ts : List Token) : ∀ (l₁ l₂ : List (List Char)) (p : Pos),
+    ValidLayout ts l₁ → ValidLayout ts l₂ → SameCursor l₁ l₂ → locate ts l₁ p = locate ts l₂ p := by
+  induction ts with
+  | nil => intro l₁ l₂ p _ _ _; rfl
+  | cons t ts ih =>
+    intro l₁ l₂ p h₁ h₂ hc
+    match l₁, l₂, h₁, h₂ with
+    | a :: l, b :: m, h₁, h₂ =>
+      simp only [ValidLayout] at h₁ h₂
+      have hc' : (∀ p, advs a p = advs b p) ∧ SameCursor l m := by
+        cases l with
+        | nil => cases ts <;> simp [ValidLayout] at h₁
+        | cons a' l' =>
+          cases m with
+          | nil => cases ts <;> simp [ValidLayout] at h₂
+          | cons b' m' => simpa [SameCursor] using hc
+      simp only [locate, List.headD_cons, List.tail_cons, hc'.1]
+      rw [ih l m _ h₁.2.2 h₂.2.2 hc'.2]
+
+theorem evalText_lex_congr (fuel : Nat) (st : State) (t₁ t₂ : List Char) (h : Lex.all t₁ = Lex.all t₂) :
+    evalText fuel st t₁ = evalText fuel st t₂ := by
+  unfold evalText Read.ofText
+  rw [h]
+
+
+theorem advs_cons (c : Char) (cs : List Char) (p : Pos) : advs (c :: cs) p = advs cs (adv c p) := rfl
+
+theorem advs_crlf (a : List Char) : ∀ p, advs (crlf a) p = advs a p := by
+  induction a with
+  | nil => intro p; rfl
+  | cons c cs ih =>
+    intro p
+    unfold crlf
+    by_cases hc : c = '\n'
+    · subst hc
+      simp only [if_true, advs_cons]
+      rw [ih]
+      simp [adv]
+    · simp only [hc, if_false, advs_cons]
+      rw [ih]
+
+theorem isAtmos_crlf (a : List Char) : ∀ b, isAtmos b (crlf a) = isAtmos b a := by
+  induction a with
+  | nil => intro b; rfl
+  | cons c cs ih =>
+    intro b
+    unfold crlf
+    by_cases hc : c = '\n'
+    · subst hc
+      cases b <;> simp [isAtmos, isWs, ih]
+    · cases b <;> simp only [hc, if_false, isAtmos, ih]
+
+theorem isTrail_crlf (a : List Char) : ∀ b, isTrail b (crlf a) = isTrail b a := by
+  induction a with
+  | nil => intro b; cases b <;> rfl
+  | cons c cs ih =>
+    intro b
+    unfold crlf
+    by_cases hc : c = '\n'
+    · subst hc
+      cases b <;> simp [isTrail, isWs, ih]
+    · cases b <;> simp only [hc, if_false, isTrail, ih]
+
+theorem followOK_head (t : Token) {x y : List Char} (h : x.head? = y.head?) : followOK t x = followOK t y := by
+  cases x with
+  | nil => cases y with
+    | nil => rfl
+    | cons d y => simp at h
+  | cons c x => cases y with
+    | nil => simp at h
+    | cons d y =>
+      simp only [List.head?_cons, Option.some.injEq] at h
+      subst h
+      unfold followOK
+      rw [startsSharp_cons_eq c x y]
+      split <;> simp [startsDelim]
+
+theorem followOK_lf_cr (t : Token) (x y : List Char) : followOK t ('\r' :: x) = followOK t ('\n' :: y) := by
+  unfold followOK
+  split
+  · simp only [List.isEmpty_cons, List.head?_cons]; decide
+  · simp [startsDelim, startsSharp, isDelimiter, isWs]
+
+theorem followOK_crlf (t : Token) (a x y : List Char) (h : x.head? = y.head?) :
+    followOK t (crlf a ++ x) = followOK t (a ++ y) := by
+  cases a with
+  | nil => exact followOK_head t h
+  | cons c cs =>
+    unfold crlf
+    by_cases hc : c = '\n'
+    · subst hc
+      simp only [if_true, List.cons_append]
+      exact followOK_lf_cr t _ _
+    · simp only [hc, if_false, List.cons_append]
+      exact followOK_head t rfl
+
+theorem interleave_crlf_head (ts : List Token) (hs : ∀ t ∈ ts, SupportedTok t) (l : List (List Char)) (t : Token) :
+    followOK t (interleave ts (l.map crlf)) = followOK t (interleave ts l) := by
+  cases ts with
+  | nil =>
+    cases l with
+    | nil => rfl
+    | cons a l =>
+      simp only [interleave, List.map_cons, List.headD_cons]
+      have := followOK_crlf t a [] [] rfl
+      simpa using this
+  | cons t' ts' =>
+    have hpos := renderTok_length_pos t' (hs t' (by simp))
+    cases l with
+    | nil => rfl
+    | cons a l =>
+      simp only [interleave, List.map_cons, List.headD_cons, List.tail_cons]
+      apply followOK_crlf
+      cases h : renderTok t' with
+      | nil => simp [h] at hpos
+      | cons c r => rfl
+
+theorem validLayout_crlf (ts : List Token) (hs : ∀ t ∈ ts, SupportedTok t) : ∀ (l : List (List Char)),
+    ValidLayout ts l → ValidLayout ts (l.map crlf) := by
+  induction ts with
+  | nil =>
+    intro l h
+    match l, h with
+    | [a], h => simp only [ValidLayout, List.map_cons, List.map_nil] at h ⊢; rw [isTrail_crlf]; exact h
+  | cons t ts ih =>
+    intro l h
+    match l, h with
+    | a :: l, h =>
+      simp only [ValidLayout, List.map_cons] at h ⊢
+      have hs' : ∀ t ∈ ts, SupportedTok t := fun t ht => hs t (by simp [ht])
+      refine ⟨by rw [isAtmos_crlf]; exact h.1, ?_, ih hs' l h.2.2⟩
+      rw [interleave_crlf_head ts hs' l t]; exact h.2.1
+
+theorem sameCursor_crlf (ts : List Token) : ∀ (l : List (List Char)), ValidLayout ts l → SameCursor l (l.map crlf) := by
+  induction ts with
+  | nil =>
+    intro l h
+    match l, h with
+    | [a], _ => simp [SameCursor]
+  | cons t ts ih =>
+    intro l h
+    match l, h with
+    | a :: l, h =>
+      simp only [ValidLayout] at h
+      have := ih l h.2.2
+      cases l with
+      | nil => cases ts <;> simp [ValidLayout] at h
+      | cons a' l' =>
+        simp only [List.map_cons, SameCursor] at this ⊢
+        exact ⟨fun p => (advs_crlf a p).symm, this⟩
+
+theorem sameCursor_last (ts : List Token) : ∀ (l : List (List Char)) (a b : List Char),
+    l.length = ts.length → SameCursor (l ++ [a]) (l ++ [b]) := by
+  induction ts with
+  | nil => intro l a b h; cases l <;> simp_all [SameCursor]
+  | cons t ts ih =>
+    intro l a b h
+    cases l with
+    | nil => simp at h
+    | cons x l =>
+      have := ih l a b (by simpa using h)
+      cases l with
+      | nil => simp [SameCursor]
+      | cons y l' => simp only [List.cons_append, SameCursor] at this ⊢; exact ⟨fun _ => trivial, this⟩
+
+end layout
 
 end Ruschm.FrontSpec
